@@ -21,7 +21,8 @@ import (
 
 func init() { commands["config-run"] = configRun }
 
-var fmtNames = map[string]formats.Format{"cdx15": formats.CDX15JSON, "spdx23": formats.SPDX23JSON, "cdx14": formats.CDX14JSON}
+var fmtNames = map[string]formats.Format{"cdx15": formats.CDX15JSON, "spdx23": formats.SPDX23JSON, "cdx14": formats.CDX14JSON,
+	"spdx22": formats.SPDX22JSON} // spdx22: a format constant of the library that no serializer is registered for
 
 func fmtName(f formats.Format) string {
 	for k, v := range fmtNames {
@@ -428,7 +429,7 @@ func configRun(args []string) error {
 		}
 		return o, order
 	}
-	wvals := map[string][]string{"format": {"cdx15", "spdx23"}, "indent": {"2", "8"}, "noclobber": {"true"}, "fopt": {"v1", "v2"}, "ser": {"on"}}
+	wvals := map[string][]string{"format": {"cdx15", "spdx23", "cdx15", "spdx23", "spdx22"}, "indent": {"2", "8"}, "noclobber": {"true"}, "fopt": {"v1", "v2"}, "ser": {"on"}}
 	rvals := map[string][]string{"fopt": {"v1", "v2"}, "retr": {"x", "y"}, "unser": {"on"}}
 	for sid := 1; sid <= *n; sid++ {
 		exec(map[string]any{"op": "Reset", "sid": sid})
@@ -461,7 +462,7 @@ func configRun(args []string) error {
 			case k == 3:
 				exec(map[string]any{"op": "Write", "sid": sid, "i": 1 + r.Intn(nw), "callfmt": ""})
 			case k == 4:
-				exec(map[string]any{"op": "Write", "sid": sid, "i": 1 + r.Intn(nw), "callfmt": pick(r, []string{"cdx15", "spdx23"})})
+				exec(map[string]any{"op": "Write", "sid": sid, "i": 1 + r.Intn(nw), "callfmt": pick(r, []string{"cdx15", "spdx23", "cdx15", "spdx23", "spdx22"})})
 			default:
 				exec(map[string]any{"op": "StoreNoClobber", "sid": sid, "i": 1 + r.Intn(nw)})
 			}
